@@ -55,7 +55,7 @@ CHECKS.update({
          "§5 ActorSys / C08"),
  "C09": ("model_checking",
          "TLA+ spec ActorSys (actor tree at turn granularity: spawn, tell, kill, failure, supervision, restart, zombie, stash, watch, event stream) model-checked by TLC; TLC-simulated behaviours replayed turn by turn on a real actor.System through a gate in the mailbox consumer with the context projection compared after every step; recorded traces validated by TLC against the UnstuckMon monitor",
-         "Same model (invariants NobodyStuck, NoStrandedMail at rest) and binding; UnstuckMon checks at every quiescent point of the real system that no live actor is paused or half-stopped and no user mail is stranded, that every actor answers a probe (live: delivered, gone: dead letter), that queued mail keeps its order through restart/resume, and that a zombie runs no user code.",
+         "Same model (invariants NobodyStuck, NoStrandedMail at rest) and binding; UnstuckMon checks at every quiescent point of the real system that no live actor is paused or half-stopped and no user mail is stranded, that every actor answers a probe (live: delivered, gone: dead letter), that queued mail keeps its order through restart/resume, that a zombie runs no user code, and that an actor is a zombie only after its own restart hook failed. Handlers fail through ctx.Failed and by panicking.",
          "One turn (HandleEnvelop) is atomic w.r.t. other actors (C01); root and observer ungated; scripted behaviours/decision makers are the only user code; name re-use is outside the TLC model; exhaustiveness holds for the model, the code is bound by the replayed and sampled schedules.",
          "§5 ActorSys / C09"),
  "C19": ("model_checking",
@@ -64,9 +64,9 @@ CHECKS.update({
          "One turn (HandleEnvelop) is atomic w.r.t. other actors (C01); root and observer ungated; scripted behaviours/decision makers are the only user code; name re-use is outside the TLC model; exhaustiveness holds for the model, the code is bound by the replayed and sampled schedules.",
          "§5 ActorSys / C19"),
  "C04": ("model_checking",
-         "TLA+ spec of one Ask (Future.close / PipeTo / Result and the registration in Context.ask) at hook granularity, TLC: all interleavings of repliers, timer, asker death, PipeTo and Result callers (safety + termination); TLC behaviours replayed on a real Ask through hooks in future.go/context.go; traces validated by TLC against AskMon",
-         "Every interleaving of three completer threads, one or two PipeTo callers and one or two Result callers with the three steps of ask() is explored by TLC for: single completion, every waiter/forwarder sees that completion's value exactly once, no registration left, everybody terminates. Simulated behaviours and random thread sets (time-outs 0.1-20 ms) are replayed on a real future created by the real Context.ask with a real timer and real forwarder actors; AskMon judges values, exactly-once forwarding, own-reply-only, time-out not early, waiters released and registry emptiness.",
-         "Critical sections under Future.mu and futureLock are atomic; real timer (one-sided time check); one Ask per scenario (several concurrent Asks of one asker are exercised only through the random C10 stress).",
+         "TLA+ spec of one Ask (Future.close / PipeTo / Result and the registration in Context.ask) at hook granularity, TLC: all interleavings of repliers, timer, asker death, PipeTo and Result callers (safety + termination); TLC behaviours replayed on a real Ask through hooks in future.go/context.go; second TLA+ spec Registry (all Asks of one asker: creation, registration, compensation, timers, death scan, restart turned into termination; TLC exhaustive, two refuted variants); ungated asker-life scenarios; traces validated by TLC against AskMon and AskLifeMon",
+         "Every interleaving of three completer threads, one or two PipeTo callers and one or two Result callers with the three steps of ask() is explored by TLC for: single completion, every waiter/forwarder sees that completion's value exactly once, no registration left, everybody terminates. Simulated behaviours and random thread sets (time-outs 0.1-20 ms) are replayed on a real future created by the real Context.ask with a real timer and real forwarder actors; AskMon judges values, exactly-once forwarding, own-reply-only, time-out not early, waiters released and registry emptiness. Registry.tla is checked for: a dead asker leaves no pending Ask, a completed future is not registered, an open future is registered; on the code an asker makes 2-5 Asks with time-outs from 1 ns to seconds (with a delay injected before registration) and then ends in one of six ways (kill, poison kill, failure+Stop, failure+Restart with a kill during or after the restart, parent's termination); AskLifeMon requires every Ask to be complete 150 ms after the asker's termination, no registration left, own reply only, time-out not early, death only once the asker is being ended.",
+         "Critical sections under Future.mu and futureLock are atomic; real timer (one-sided time check); the gated scenarios have one Ask each; several Asks of one asker are covered by Registry.tla and the ungated asker-life scenarios (real time: 150 ms grace).",
          "§5 C04"),
  "C11": ("model_checking",
          "TLA+ spec of the receiving side's framing (byte stream in arbitrary segments -> one frame per turn through a buffered reader), TLC: all segmentations over chosen cut sets (safety + all delivered); TLC-simulated write/read behaviours replayed on the real connection actor over a scripted net.Conn; end-to-end loopback runs; traces validated by TLC against DeliveryMon",
@@ -75,31 +75,31 @@ CHECKS.update({
          "§5 C11"),
  "C14": ("model_checking",
          "TLA+ specs Link (sender retry loop vs refused/cut/returning peer, TLC exhaustive) and Framing with connection resets (TLC); reset behaviours replayed on the real connection actor over a scripted net.Conn; bad-frame streams, an unreachable peer and a restarting fake peer against the real sending mailbox; traces validated by TLC against FaultMon",
-         "TLC checks on Link that what the remote actor receives is a strictly increasing subsequence, nothing is both delivered and dead-lettered, every message is accounted for and the sender always gets through; on Framing with resets that only completely received frames are delivered. Simulated reset behaviours (cut inside a prefix, inside a body, at a boundary) are replayed byte-exactly on the real reader; streams with undecodable or over-long frames, a peer that is unreachable (ReconnectLimit 0-2) and a peer process that dies and returns exercise the real mailbox. FaultMon: subsequence / intact / no duplicate, later frames delivered after an undecodable one, dead letter exactly once for messages that could not be written, recovery after the peer returns, Tell returns promptly.",
+         "TLC checks on Link that what the remote actor receives is a strictly increasing subsequence, nothing is both delivered and dead-lettered, every message is accounted for and the sender always gets through; on Framing with resets that only completely received frames are delivered. Simulated reset behaviours (cut inside a prefix, inside a body, at a boundary) are replayed byte-exactly on the real reader; streams with undecodable or over-long frames, a peer that is unreachable (ReconnectLimit 0-2), a peer that answers the handshake and resets every connection (Link.tla: Flake; the variant that resets the attempt counter on connect violates Finishes), and a peer process that dies and returns exercise the real mailbox. FaultMon: subsequence / intact / no duplicate, later frames delivered after an undecodable one, dead letter exactly once for messages that could not be written, recovery after the peer returns, connections opened <= messages x (limit+1), Tell returns promptly.",
          "The byte at which a kernel write fails cannot be controlled: messages accepted by the kernel and lost with the connection are tolerated; real time with wide margins for the sender-side scenarios; KNOWN FINDING KF-C14-1 (Tell blocks the caller while the peer is unreachable).",
          "§5 C14"),
  "C15": ("model_checking",
          "TLA+ spec LocTrans states the location-independent outcome of every reference-taking operation and enumerates the operation x location x forwarder x message-flavour matrix (TLC); every cell is executed on two real systems over loopback TCP; outcomes validated by TLC against TransMon",
-         "Exhaustive over the matrix (34 cells): tell, ask/reply, immediate and poison kill, watch, unwatch, ping, pipe success/failure with local and remote forwarders, scheduler delivery, each with a registered custom message and with a Codec-only message where a message is carried. Each cell is run from an actor on system A against actors on A or on system B; TransMon requires the observed outcome to equal the location-independent expectation and no built-in message to fail decoding.",
+         "Exhaustive over the matrix: tell, ask/reply, immediate and poison kill, watch (also two watchers with the same path on both systems), unwatch, ping, pipe success / failure by time-out / failure by a plain error reply with local and remote forwarders, scheduler delivery, path histories (fresh, recreated under the same name, after messages whose encoding failed), each with a registered custom message and with a Codec-only message where a message is carried. Each cell is run from an actor on system A against actors on A or on system B; TransMon requires the observed outcome to equal the location-independent expectation and no built-in message to fail decoding.",
          "Outcomes are observed with real-time waits (1.5 s; 300 ms for the negative unwatch case); one Codec implementation; the matrix lists operations of ActorContext (ActorSystem shares the implementation).",
          "§5 C15"),
  "C12": ("other",
          "TLA+ module Wire defines the wire grammar and enumerates (TLC) the round-trip case matrix; every case is executed on the real writer/reader, registered (de)serialisers and envelope codec; results validated by TLC against CodecMon; model token widths compared with real encodings",
-         "Exhaustive over the matrix: every primitive/blob kind x value class (zero, one, max, min / empty, one, long, non-ASCII) x container (direct, pointer, 0/1/3-element slice, array, struct field, slice of structs); value-class vectors (all-zero, all-one, all-extreme, each single leaf extreme, int fields beyond int32) for every message type found in the real wire registry (materialised by reflection, so a newly registered message is covered without touching the harness); every envelope combination of system flag x sender absent/local/remote x receiver absent/present x built-in/custom message. CodecMon: semantic equality and the reader consumes exactly what the writer produced.",
+         "Exhaustive over the matrix: every primitive/blob kind x value class (zero, one, max, min / empty, one, long, non-ASCII) x container (direct, pointer, 0/1/3-element slice, array, struct field, slice of structs, slice of structs with an unexported field, slices of zero-width elements); value-class vectors (all-zero, all-one, all-extreme, each single leaf extreme, int fields beyond int32) for every message type found in the real wire registry (materialised by reflection, so a newly registered message is covered without touching the harness); every envelope combination of system flag x sender absent/local/remote x receiver absent/present x built-in/custom message. CodecMon: semantic equality and the reader consumes exactly what the writer produced.",
          "Value classes, not all values (TLC does not reason about Go arithmetic); KNOWN FINDING KF-C12-1 (int fields travel as int32).",
          "§5 C12"),
  "C13": ("fault_enumeration",
          "TLA+ module Wire enumerates (TLC) the fault matrix over valid encodings and the unsupported encode-side values; every case runs on the real decoders/encoders in a child process under an address-space limit and a watchdog; outcomes validated by TLC against CodecMon",
-         "Faults: truncation at every offset, XOR of every byte with 0xFF/0x01/0x80, every 4-byte window overwritten with 65536 / 2^31 / 2^32-1, the first three length tokens set to 0 / n-1 / n+1 / 65536 / 2^31 / 2^32-1, unknown message name - applied to a valid envelope of every message type in the real wire registry, to a cluster view and to primitive / slice / array / struct encodings (quick: a seed-shifted stride of 7 over the offsets; thorough: every offset, plus all-extreme encodings). Encode side: int, uint, uintptr, complex, map, chan, func, nil interface, named integer, nil pointers, structs with such fields, nil and non-pointer messages, the zero value (all fields nil) of every registered message. CodecMon: outcome is value or error (panic, time-out, stack overflow, out of memory are violations), allocation <= 32 MiB + 64 x input, a failed decode leaves the caller's pre-filled target untouched.",
+         "Faults: truncation at every offset, XOR of every byte with 0xFF/0x01/0x80, every 4-byte window overwritten with 65536 / 2^31 / 2^32-1 / 2^32-4 (the last two at every offset in both tiers), the first three length tokens set to 0 / n-1 / n+1 / 65536 / 2^31 / 2^32-1, unknown message name - applied to a valid envelope of every message type in the real wire registry, to a cluster view and to primitive / slice / array / struct encodings (quick: a seed-shifted stride of 7 over the offsets; thorough: every offset, plus all-extreme encodings). Encode side: int, uint, uintptr, complex, map, chan, func, nil interface, named integer, nil pointers, structs with such fields, nil and non-pointer messages, the zero value (all fields nil) of every registered message. CodecMon: outcome is value or error (panic, time-out, stack overflow, out of memory are violations), allocation <= 32 MiB + 64 x input, a failed decode leaves the caller's pre-filled target untouched.",
          "Fault classes over valid encodings, not all byte strings; the frame level (connection length prefix, 4 MiB limit) is exercised in C14; allocation is measured with runtime.MemStats in a single-purpose child.",
          "§5 C13"),
  "C20": ("model_checking",
          "TLA+ spec Sched (shared timer queue keyed by a derived job key, per-actor reference table, Once/Loop/invalid Cron/Cancel/Clear/Kill/Restart/Fire/Tick on a discrete clock), TLC exhaustive; TLC-simulated behaviours replayed on real actor systems in real time (one clock value = 100 ms); timestamped traces validated by TLC against SchedMon",
-         "TLC checks that queued jobs always belong to a live owner in the incarnation that scheduled them, that keys are unique and denote one (owner, reference), that firings are on time, that Cancel answers not-found exactly for unknown references and that an API call on one actor never changes another actor's jobs - for the key derivation of record, and (self-test) shows the concatenated key violating them. Simulated behaviours (two families: plain names, names and references containing ':') are executed by scripted actors under a restarting supervisor; a hook marks the start of every firing. SchedMon: not before the n-th instant, once fires/delivers once, nothing fires/arrives after cancel / clear / death / restart (beyond a grace for a firing already under way), invalid Cron is a parse error and schedules nothing, Cancel answers, dead letter only for a dead receiver, original value, delivery to the named receiver, and lower bounds (what was due while the job lived has arrived).",
+         "TLC checks that queued jobs always belong to a live owner in the incarnation that scheduled them, that keys are unique and denote one (owner, reference), that firings are on time, that Cancel answers not-found exactly for unknown references and that an API call on one actor never changes another actor's jobs - for the key derivation of record, and (self-test) shows the concatenated key violating them. Simulated behaviours (two families: plain names, names and references containing ':'; re-use of a reference after Cancel/Clear, and on top of a live loop job where the call is a no-op; cron jobs; an unreachable remote receiver next to local jobs) are executed by scripted actors under a restarting supervisor; a hook marks the start of every firing. SchedMon: not before the n-th instant, once fires/delivers once, nothing fires/arrives after cancel / clear / death / restart (beyond a grace for a firing already under way), invalid Cron is a parse error and schedules nothing, Cancel answers, dead letter only for a dead receiver, original value, delivery to the named receiver, and lower bounds (what was due while the job lived has arrived).",
          "Real time: go-quartz (third party) owns the clock; a run is judged only if a canary timer was never more than 25 ms late; grace 35 ms (firing hook) / 150 ms (delivery), slack 45 ms for lower bounds, so a cancellation within a few milliseconds of the firing instant is tolerated either way.",
          "§5 C20"),
  "C18": ("model_checking",
-         "TLA+ spec Gossip (one action per message handled by NodeActor: launch/bootstrap, join as an atomic Ask exchange, gossip delivery with merge and re-broadcast, gossip tick, the suppression rule, FIFO channel per node pair, crash/restart/leave/cut/lose), TLC exhaustive for 3 nodes incl. liveness; TLC-simulated behaviours replayed step by step on real NodeActor objects in a deterministic simulator with state comparison after every step; random scenarios on 4-7 nodes; traces validated by TLC against ConvergeMon",
+         "TLA+ spec Gossip (one action per message handled by NodeActor: launch/bootstrap, join as an atomic Ask exchange, gossip delivery with merge and re-broadcast, gossip tick, the suppression rule, FIFO channel per node pair, crash/restart/leave/cut/lose), TLC exhaustive for 3 nodes incl. liveness; TLC-simulated behaviours replayed step by step on real NodeActor objects in a deterministic simulator with state comparison after every step; random scenarios on 4-7 nodes and directed families (isolated during join, restart then late joiners, partitioned seeds, self-seeded islands with a bridge node, failure detection on); traces validated by TLC against ConvergeMon",
          "TLC checks, for all launch orders and delivery interleavings of 3 nodes with one or two seeds, that whenever nothing is in flight and nobody would send, all running nodes hold the same members in the same incarnations, computed and announced the same leader, and exactly one considers itself leader; and (liveness, weak fairness on deliveries, ticks and join retries) that this is eventually reached for good. With one fault the model itself shows that a crashed member is never removed (recorded finding). The simulator runs the real NodeActor code against a mock actor context (messages through the real wire codec); 2,451 replayed model steps agree with the code state-for-state (members, incarnations, version vectors, announced leader). ConvergeMon on the final fixpoint (three rounds of all deliveries and timers changing nothing): EventuallyStable, SameMembers, SameLeader, LeaderAnnounced, ExactlyOneLeader, JoinedNodeKnownToAll, NewestIncarnationEverywhere, NoShadowIncarnation, CrashedNodeAbsent, LeftNodeAbsent, OnlyRunningNodes, and nothing changes or is announced in five further rounds.",
          "The simulator replaces mailbox, remoting and scheduler by a deterministic driver (one OnReceive at a time, FIFO per pair, Ask answered inside the caller's turn). Failure detection reads the wall clock: simulated with a 30 ms time-out in a few healthy-cluster scenarios. KNOWN FINDINGS KF-C18-1..4 (crashed / left members never removed, fresh NodeID shadows the old incarnation, failure detection removes live members for ever).",
          "§5 C18"),
